@@ -106,11 +106,18 @@ func (c *Checker) storeInCache(hashesToRequest, respHashes []hostnameHash) {
 	}
 
 	for _, hash := range hashesToRequest {
+		var pref prefix
+		copy(pref[:], hash[:])
+
+		if _, ok := hashToStore[pref]; ok {
+			// Hashes for this prefix have just been received.  Never record
+			// the prefix as empty, even if the entry could not be kept in the
+			// cache because of its size or has already been evicted.
+			continue
+		}
+
 		val := c.cache.Get(hash[:prefixLen])
 		if val == nil {
-			var pref prefix
-			copy(pref[:], hash[:])
-
 			c.setCache(pref, nil)
 		}
 	}
